@@ -276,7 +276,7 @@ def model_workload(w):
 
 BUGS_OFF = {"BugRequeueAll": False, "BugStaleSwitch": False, "BugResubBehind": False,
             "BugPubrelDemote": False, "BugRetryNoTimeout": False, "BugSubDup": False,
-            "BugHandleAfterConnect": False, "BugHandleNotForwarded": False}
+            "BugHandleAfterConnect": False, "BugHandleNotForwarded": False, "BugRetryGoesOn": False}
 ALL_INVARIANTS = ["NoDupQoS2", "NoLoss", "DupFlag", "NoPubAfterRel", "NoTxAfterDone", "OrderPerConn", "FirstTxOrder",
                   "NoQoS0Retx", "StableDone", "DeliveredOnce", "StableSubs", "WaitArmed"]
 
@@ -317,6 +317,7 @@ BUG_SELFTEST = [
     ("BugResubBehind", dict(workload=[SUB(("x", 1)), PUB(1), UNSUB("x")], faults=2, sessions=(True, False)), {"StableSubs"}),
     ("BugRetryNoTimeout", dict(workload=[PUB(1)], faults=2, resp_timeout=True), {"WaitArmed"}),
     ("BugSubDup", dict(workload=[SUB(("x", 0)), SUB(("x", 1)), UNSUB("x")], faults=1, sessions=(True, False)), {"StableSubs"}),
+    ("BugRetryGoesOn", dict(workload=[PUB(1), SUB(("y", 1)), UNSUB("y")], faults=2, resp_timeout=True, invariants=["StableSubs"]), {"StableSubs"}),
     ("BugHandleAfterConnect", dict(workload=[PUB(1)], faults=1, handlers=(1,), inbound=2, invariants=["HandlerFollows"]), {"HandlerFollows"}),
     ("BugHandleNotForwarded", dict(workload=[PUB(1)], faults=1, handlers=(1, 2), inbound=2, invariants=["HandlerFollows"]), {"HandlerFollows"}),
 ]
